@@ -185,7 +185,10 @@ def gen_stream(rng, style=None, plain=False, doubling=None):
   p_null = 0 if plain else rng.choice([0, 0, 0.15])
   p_ch2 = 0 if plain else rng.choice([0, 0, 0.2])
   # start time code: anywhere, sometimes just before a minute boundary (drop-frame labels)
-  if rng.random() < 0.3:
+  if rng.random() < 0.06:
+    # at and beyond 24 hours (labels are plain counters, not times of day), and lines that run across the 24 h mark
+    h, m, s, f = rng.choice([(23, 59, 59, rng.randrange(20, 30)), (24, 0, 0, 0), (47, 59, 58, 0), (99, 0, 1, 10), (30, 10, 10, 10)])
+  elif rng.random() < 0.3:
     h, m, s, f = rng.randrange(0, 24), rng.randrange(0, 60), 59, rng.randrange(0, 30)
   else:
     h, m, s, f = rng.randrange(0, 24), rng.randrange(0, 60), rng.randrange(0, 60), rng.randrange(0, 30)
@@ -269,5 +272,24 @@ def gen_stream(rng, style=None, plain=False, doubling=None):
       em2.code(U.w_ctl("EDM"), allow_ch2=False)
       new_line(em2, rng.choice([0, 3, rng.randint(1, 120)]))
       feats.add("erase_line")
+  if (not plain) and rng.random() < 0.12:
+    # SCC lines are only containers: the same words may be cut into lines anywhere (also between a code and its repetition),
+    # and a line may hold nothing but null padding - after which a repeated code is a NEW command, not a redundant copy
+    cands = [k for k, (_f, ws) in enumerate(lines) if len(ws) >= 2]
+    if cands:
+      k = rng.choice(cands)
+      f0, ws = lines[k]
+      cut = rng.randint(1, len(ws) - 1)
+      pad = rng.choice([0, 0, 1, 2, 3])
+      new = [(f0, ws[:cut])]
+      if pad:
+        new.append((f0 + cut, [0] * pad))
+        feats.add("padding_only_line")
+      new.append((f0 + cut + pad, ws[cut:]))
+      lines[k:k + 1] = new
+      if pad:
+        for j in range(k + len(new), len(lines)):
+          lines[j] = (lines[j][0] + pad, lines[j][1])
+      feats.add("line_cut")
   return {"lines": lines, "df": df, "parity": rng.random() < 0.8, "align": rng.choice([None, None, "left", "center", "right", "auto"]),
           "features": sorted(feats), "style": style if not mixed else "mixed"}
